@@ -145,7 +145,7 @@ Proof.
 Qed.
 
 (* ---- semantic parsing: one option ------------------------------------------------------------------- *)
-(* the variable option_delta_extended after an option: overwritten only by an extended delta *)
+(* the parser's local option_delta_extended after an option: overwritten only by an extended delta *)
 Definition next_dext (o : coap_opt) (last : option bits) : option bits :=
   if 13 <=? o_delta o then Some (extension (o_delta o)) else last.
 
@@ -188,4 +188,116 @@ Proof.
   all: rewrite ?Z_of_bits_small by (cbn; lia); ltb_dec; eqb_dec; cbv beta iota zeta; cbn [bind].
   all: repeat match goal with |- context [?i + (?x - ?c) + ?k] => replace (i + (x - c) + k) with (i + x) by lia end.
   all: f_equal; try reflexivity; lia.
+Qed.
+
+(* ---- semantic parsing: the options walk --------------------------------------------------------------- *)
+Lemma sem_loop_ok os : forall fuel b cursor index last acc pl,
+  0 <= cursor <= zlen b -> sl_from b cursor = concat (map opt_encode os) ++ coap_tail pl ->
+  Forall opt_wf os -> (length os < fuel)%nat ->
+  coap_semantic_loop fuel b cursor index last acc =
+  Ok (semantic_opt_fields os index acc ++ marker_fields pl,
+      cursor + zlen (concat (map opt_encode os)) + marker_len pl).
+Proof.
+  induction os as [|o os IH]; intros fuel b cursor index last acc pl Hc Hob Hwf Hf;
+    (destruct fuel as [|f]; [lia|]).
+  - cbn [map concat app] in *. change (zlen (@nil bool)) with 0. cbn [semantic_opt_fields].
+    pose proof (zlen_sl_from b cursor ltac:(lia)) as Hz. rewrite Hob in Hz.
+    cbn [coap_semantic_loop].
+    destruct pl as [p|]; cbn [coap_tail marker_fields marker_len] in *.
+    + rewrite zlen_app, zlen_bits_of in Hz. cbn [Z.of_nat Pos.of_succ_nat Pos.succ] in Hz.
+      pose proof (zlen_nonneg p).
+      assert (Hb8 : sl b cursor (cursor + 8) = bits_of 8 255).
+      { replace (sl b cursor (cursor + 8)) with (sl (sl_from b cursor) 0 8) by (rewrite sl_sl_from by lia; f_equal; lia).
+        rewrite Hob. apply sl_here0. reflexivity. }
+      rewrite Hb8. change (eq_byte (bits_of 8 255) 255) with true.
+      destruct (Z.ltb_spec cursor (zlen b)); [|lia]. cbn [andb negb].
+      f_equal. f_equal. lia.
+    + change (zlen (@nil bool)) with 0 in Hz.
+      destruct (Z.ltb_spec cursor (zlen b)); [lia|]. cbn [andb].
+      rewrite app_nil_r. f_equal. f_equal. lia.
+  - inversion Hwf as [|? ? Ho Hos]; subst.
+    cbn [map concat] in *. rewrite <- app_assoc in Hob.
+    rewrite (sem_step f b cursor index last acc o _ ltac:(lia) Hob Ho).
+    pose proof (zlen_sl_from b cursor ltac:(lia)) as Hz. rewrite Hob in Hz. rewrite zlen_app in Hz.
+    pose proof (zlen_nonneg (opt_encode o)). pose proof (zlen_nonneg (concat (map opt_encode os) ++ coap_tail pl)).
+    rewrite IH with (pl := pl); cbn [length] in *; try lia; try assumption.
+    + cbn [semantic_opt_fields]. rewrite zlen_app. f_equal. f_equal. lia.
+    + rewrite <- sl_from_from by lia. rewrite Hob. apply sl_from_here. reflexivity.
+Qed.
+
+Lemma sem_options_ok os pl : Forall opt_wf os ->
+  (if 0 <? zlen (concat (map opt_encode os) ++ coap_tail pl)
+   then catch_all (coap_semantic_loop (S (length (concat (map opt_encode os) ++ coap_tail pl)))
+                                      (concat (map opt_encode os) ++ coap_tail pl) 0 0 None []) ParserError
+   else Ok ([], 0)) =
+  Ok (semantic_opt_fields os 0 [] ++ marker_fields pl, zlen (concat (map opt_encode os)) + marker_len pl).
+Proof.
+  intros Hwf. set (ob := concat (map opt_encode os) ++ coap_tail pl).
+  destruct (Z.ltb_spec 0 (zlen ob)) as [Hp|Hz].
+  - rewrite (sem_loop_ok os (S (length ob)) ob 0 0 None [] pl).
+    + reflexivity.
+    + lia.
+    + rewrite sl_from_eq by lia. reflexivity.
+    + exact Hwf.
+    + unfold ob. rewrite app_length. pose proof (opts_len os). lia.
+  - apply zlen_0_nil in Hz. unfold ob in Hz. apply app_eq_nil in Hz. destruct Hz as [Ho Ht].
+    destruct os as [|o os].
+    + destruct pl as [p|]; [discriminate Ht|]. reflexivity.
+    + cbn [map concat] in Ho. apply app_eq_nil in Ho. destruct Ho as [Ho _].
+      pose proof (opt_encode_len o) as Hl. rewrite Ho in Hl. cbn in Hl. lia.
+Qed.
+
+(* 1. semantic parsing of a well-formed message *)
+Theorem c19_semantic_parse m : coap_wf m ->
+  parse_coap_semantic (coap_encode m) = Ok (coap_semantic_fields m, coap_header_len m).
+Proof.
+  intros (H1 & H2 & Ht & H3 & H4 & Htok & Hos).
+  apply has_len_zlen in H1, H2, H3, H4. cbn [Z.of_nat Pos.of_succ_nat Pos.succ] in *.
+  set (os := concat (map opt_encode (c_opts m))). set (tl := coap_tail (c_payload m)).
+  pose proof (zlen_nonneg os) as Hos0. pose proof (zlen_nonneg tl) as Htl0.
+  assert (S0 : forall b, b = c_ver m ++ c_type m ++ bits_of 4 (c_tkl m) ++ c_code m ++ c_mid m ++ c_token m ++ os ++ tl ->
+     32 <= zlen b /\
+     sl b 0 2 = c_ver m /\ sl b 2 4 = c_type m /\ sl b 4 8 = bits_of 4 (c_tkl m) /\ sl b 8 16 = c_code m /\
+     sl b 16 32 = c_mid m /\ sl b 32 (32 + c_tkl m * 8) = c_token m /\ sl_from b (32 + c_tkl m * 8) = os ++ tl).
+  { intros b ->. repeat split; try sl_solve; [zl|sl_from_find]. }
+  destruct (S0 (coap_encode m) eq_refl) as (E & E0 & E1 & E2 & E3 & E4 & E5 & E6).
+  unfold parse_coap_semantic. destruct (Z.ltb_spec (zlen (coap_encode m)) 32) as [|_]; [lia|].
+  cbv zeta. rewrite E2. rewrite Z_of_bits_small by (cbn; lia).
+  rewrite E0, E1, E3, E4, E5, E6.
+  unfold os, tl. rewrite sem_options_ok by exact Hos. cbn [bind fst snd].
+  unfold coap_semantic_fields, coap_header_len. apply f_equal. apply f_equal2.
+  - rewrite <- !app_assoc. unfold marker_fields. reflexivity.
+  - unfold coap_encode. fold os. rewrite !zlen_app, zlen_bits_of, H1, H2, H3, H4, Htok.
+    cbn [Z.of_nat Pos.of_succ_nat Pos.succ].
+    destruct (c_payload m) as [p|]; cbn [marker_len]; rewrite ?zlen_app, ?zlen_bits_of;
+      cbn [Z.of_nat Pos.of_succ_nat Pos.succ]; change (zlen (@nil bool)) with 0; lia.
+Qed.
+
+(* 3. combined, as the property states it: parse semantically, un-parse, compare with the syntactic parse
+   (the syntactic result is ParserRfc.c08_coap) *)
+Theorem c19_lossless m : coap_wf m ->
+  exists sem syn n, parse_coap_semantic (coap_encode m) = Ok (sem, n) /\ parse_coap (coap_encode m) = Ok (syn, n) /\
+                    coap_unparse (pairs sem) = Ok (pairs syn).
+Proof.
+  intros Hwf. exists (coap_semantic_fields m), (coap_fields m), (coap_header_len m).
+  split; [now apply c19_semantic_parse|]. split; [now apply c08_coap|now apply c19_unparse].
+Qed.
+
+(* ---- what the semantic fields are ------------------------------------------------------------------------ *)
+(* names and values of the semantic option fields: the option numbers (running sums of the deltas) and the
+   option values, in order *)
+Lemma semantic_opt_fields_ids os prev :
+  map f_id (semantic_opt_fields os prev []) = map semantic_fid (opt_numbers os prev).
+Proof.
+  rewrite <- sem_pairs_ids. pose proof (pairs_semantic_opt_fields os prev []) as H. cbn [pairs map app] in H.
+  rewrite <- H. unfold pairs. rewrite map_map. reflexivity.
+Qed.
+
+Lemma semantic_opt_fields_vals os prev :
+  map f_val (semantic_opt_fields os prev []) = map o_value os.
+Proof.
+  pose proof (pairs_semantic_opt_fields os prev []) as H. cbn [pairs map app] in H.
+  assert (E : map f_val (semantic_opt_fields os prev []) = map snd (pairs (semantic_opt_fields os prev []))).
+  { unfold pairs. rewrite map_map. reflexivity. }
+  rewrite E, H. clear. revert prev. induction os as [|o os IH]; intros prev; cbn [sem_pairs map snd]; [reflexivity|now rewrite IH].
 Qed.
